@@ -93,13 +93,33 @@ func suiteIndexScan(c *Ctx) error {
 		if err != nil {
 			return fmt.Errorf("program does not load: %v", err)
 		}
-		pdir := filepath.Join(c.Work, fmt.Sprintf("ix%d_pebble", pi))
-		jpath := filepath.Join(c.Work, fmt.Sprintf("ix%d.json", pi))
-		sigsP, _, err := cli.RunIndexPebble(f0, res, "Mal", "HIGH", "malware", pdir)
+		// a function with the SAME qualified name and the same shape from another checkout of the module
+		// (a second build of the same implant with other strings) is indexed in the same run: both have to
+		// be found again
+		sisterSrc := "package genpkg\n\nfunc TwinA(x int) string {\n\tif x > 1 {\n\t\treturn \"omega-sister-build\"\n\t}\n\treturn \"psi\"\n}\n"
+		fS, err := writeModule(c.Work, fmt.Sprintf("ix%d_sister", pi), "a.go", sisterSrc)
 		if err != nil {
 			return err
 		}
-		sigsJ, _, err := cli.RunIndexJSON(f0, res, "Mal", "HIGH", "malware", jpath)
+		resS, err := diff.FingerprintSource(fS, sisterSrc, ir.DefaultLiteralPolicy)
+		if err != nil {
+			return fmt.Errorf("sister program does not load: %v", err)
+		}
+		var sisterTopo *topology.FunctionTopology
+		resIdx := append([]diff.FingerprintResult{}, res...)
+		for _, fr := range resS {
+			if strings.HasSuffix(fr.FunctionName, ".TwinA") && fr.GetSSAFunction() != nil {
+				sisterTopo = topology.ExtractTopology(fr.GetSSAFunction())
+				resIdx = append(resIdx, fr)
+			}
+		}
+		pdir := filepath.Join(c.Work, fmt.Sprintf("ix%d_pebble", pi))
+		jpath := filepath.Join(c.Work, fmt.Sprintf("ix%d.json", pi))
+		sigsP, _, err := cli.RunIndexPebble(f0, resIdx, "Mal", "HIGH", "malware", pdir)
+		if err != nil {
+			return err
+		}
+		sigsJ, _, err := cli.RunIndexJSON(f0, resIdx, "Mal", "HIGH", "malware", jpath)
 		if err != nil {
 			return err
 		}
@@ -122,6 +142,40 @@ func suiteIndexScan(c *Ctx) error {
 		js := jsondb.NewScanner()
 		if err := js.LoadDatabase(jpath); err != nil {
 			return err
+		}
+		if sisterTopo != nil {
+			for _, be := range []string{"pebble", "json"} {
+				for _, mode := range []string{"full", "exact"} {
+					ps.SetThreshold(1.0)
+					js.SetThreshold(1.0)
+					var alerts []detection.ScanResult
+					switch {
+					case be == "pebble" && mode == "full":
+						alerts, _ = ps.ScanTopology(sisterTopo, "f")
+					case be == "pebble" && mode == "exact":
+						if a, _ := ps.ScanTopologyExact(sisterTopo, "f"); a != nil {
+							alerts = []detection.ScanResult{*a}
+						}
+					case be == "json" && mode == "full":
+						alerts, _ = js.ScanTopology(sisterTopo, "f")
+					default:
+						if a, _ := js.ScanTopologyExact(sisterTopo, "f"); a != nil {
+							alerts = []detection.ScanResult{*a}
+						}
+					}
+					c.Res.Evaluations++
+					found := false
+					for _, a := range alerts {
+						if a.SignatureName == "Mal_TwinA" && a.Confidence == 1.0 {
+							found = true
+						}
+					}
+					if !found {
+						c.Violate("C05", "C05/indexed-function-not-found:same-name-other-checkout", fmt.Sprintf("TwinA of the sister checkout (same qualified name, other string literals), %s backend, %s mode, threshold 1: no alert with confidence 1.0 although it was indexed in the same run", be, mode),
+							map[string]interface{}{"source": src, "sister_source": sisterSrc, "backend": be, "mode": mode, "alerts": alerts})
+					}
+				}
+			}
 		}
 		rm1 := p.RenameMap(r.Fork(), false)
 		rm2 := p.RenameMap(r.Fork(), true)
